@@ -235,7 +235,8 @@ def run(ctx):
         orig = dict(both_accept=0, both_reject=0, model_only_reject=0, kernel_only_reject=0, model_error=0)
         for k, p in enumerate(progs_):
             t = orig if p["kind"] == "original" else tab
-            if k in errors:
+            if k in errors or any(why == "MODEL-ERROR" for why, _ in verdict[k]):
+                errors.setdefault(k, "the model cannot be evaluated on this program (see spec/VerifierT.tla)")
                 t["model_error"] += 1
                 cat = "model_error"
             else:
